@@ -185,6 +185,18 @@ def shard_random(prop: str, tier: str, seed: int, n: int) -> dict[str, Any]:
     return c.export()
 
 
+def _durable_stage_status(blob: bytes, ref: str) -> str | None:
+    import sqlite3
+
+    con = sqlite3.connect(":memory:")
+    try:
+        con.deserialize(blob)
+        r = con.execute("SELECT status FROM stage_executions WHERE id = ?", (f"W1-{ref}",)).fetchone()
+        return r[0] if r else None
+    finally:
+        con.close()
+
+
 def shard_crash(prop: str, tier: str, seed: int, name: str, signalled: bool) -> dict[str, Any]:
     """Every crash point of the (un)signalled FIFO run: restart + recovery + drain."""
     c = Campaign(prop, tier, seed, LEVEL)
@@ -218,6 +230,23 @@ def shard_crash(prop: str, tier: str, seed: int, name: str, signalled: bool) -> 
                     continue  # a signal had not been sent yet at this crash point (nobody re-sends it): covered by the position sweep
             judge(c, spec, rec, {"style": "fifo", "crash_commit": cs["index"], "signal_at": at}, info, ["crash", "signalled" if signalled else "unsignalled"],
                   recovered=True, allowed_extra=rec.get("allowed_extra"))
+        if not signalled:
+            # the signal arrives only after the restart: sent right after recovery, then drained in FIFO order and with the
+            # (possibly stale, redelivered) RunTask / StartTask messages held back behind it
+            sig = {"gate": g0, "name": f"go-{g0}", "data": {"k": g0}, "persistent": True, "at": None, "gate_status_when_handled": "n/a", "handled_step": None}
+            for cs in states[::step]:
+                for hold in (None, "RunTask", "StartTask", "CompleteTask", [2], [2, 2], [0, 2], [2, 0, 2], [4], [2, 4]):
+                    if isinstance(hold, list):
+                        sched = make_schedule({"d": hold, "R": 2})  # reorder only the first deliveries after the restart, FIFO afterwards
+                    else:
+                        sched = make_schedule({"d": [], "R": 2, "hold": hold, "hold_for": 6}) if hold else None
+                    rec = recover_from(spec, cs, schedule=sched, after_recovery=inj_signal(g0, sig["name"], sig["data"], True))
+                    if _durable_stage_status(cs["blob"], g0) == "SUSPENDED":
+                        # the in-flight RunTask's result (the suspension) was already durable at the crash: its redelivery is a
+                        # duplicate and may not run the task again, so the "in-flight step may repeat" allowance does not apply
+                        rec["allowed_extra"] = None
+                    judge(c, spec, rec, {"style": (f"d:{hold}" if isinstance(hold, list) else f"hold:{hold}") if hold else "fifo", "crash_commit": cs["index"], "signal_at": "after-restart"}, [sig],
+                          ["crash", "signal-after-restart", f"after-restart-order:{hold}"], recovered=True, allowed_extra=rec.get("allowed_extra"))
     return c.export()
 
 
@@ -267,7 +296,8 @@ def run(c: Campaign, jobs: int) -> None:
         "the statement-level interleaving of SignalStage with the suspending RunTask result is explored within a pre-emption bound (scenario shared with C07)",
         "one signal per gate; SQLite only",
     ]
-    for cls in ("persistent:NOT_STARTED", "persistent:RUNNING", "persistent:SUSPENDED", "transient:SUSPENDED", "transient:RUNNING", "crash", "unsignalled", "signal-race"):
+    for cls in ("persistent:NOT_STARTED", "persistent:RUNNING", "persistent:SUSPENDED", "transient:SUSPENDED", "transient:RUNNING", "crash", "unsignalled", "signal-race",
+                "signal-after-restart"):
         if c.classes.get(cls, 0) == 0:
             c.harness_error(f"generator starvation: class {cls} never produced")
 
